@@ -77,6 +77,13 @@ fn extra_cases() -> Vec<(String, rosu_pp::Beatmap)> {
             }
         }
     }
+    let native: Vec<ModeCfg> = (0..4).map(|m| ModeCfg { src: m, dst: m }).collect();
+    for mu in vh::uni::rhythm_universes(&native, 3, 3) {
+        for i in 0..mu.total {
+            let spec = mu.spec(i);
+            v.push((spec.describe(), spec.decode()));
+        }
+    }
     for mode in 0..4u8 {
         let alpha = if mode == 3 {
             vh::gen::Alphabet::product(&[Kind::Circle, Kind::Hold(300)], &[0, 125], &[PosK::Same], &[0], &[0, 2])
